@@ -527,3 +527,129 @@ Theorem C17_example_restriction_satisfiable :
     match v with V.Model.ExampleValue.VVariant _ _ => True | _ => False end.
 Proof. exact V.Proofs.ExamplesC17Restrict.example_restriction_satisfiable. Qed.
 Print Assumptions C17_example_restriction_satisfiable.
+
+(** ** de-duplication under renumbering (Proofs/TeqEquivariance.v, Proofs/DedupPerm.v): the clause
+    "maps de-duplication renames to the same shape groups", so far only evaluated per case by
+    [prop_dedup_groups] (Corr/CheckTG.v). *)
+From V Require Model.DedupSpec Model.DedupPerm Proofs.TeqEquivariance Proofs.DedupPerm.
+
+(** [types_equal] commutes with a renumbering: same verdict, same error, same panic, for every
+    pair of ids (in range or not).  [teq] only tests ids for equality (the [a == b] shortcut,
+    membership in the visited sets, the lookup in a [GenericsList] frame) and resolves them. *)
+Theorem C17_types_equal_equivariant :
+  forall pi r, renumbering (N.of_nat (List.length r)) pi ->
+    forall a b, types_equal_res (renumber pi r) (pi a) (pi b) = types_equal_res r a b.
+Proof. exact V.Proofs.TeqEquivariance.types_equal_res_renumber. Qed.
+Print Assumptions C17_types_equal_equivariant.
+
+(** ... the whole run is the image of the original run: for every fuel, both parameter lists
+    ([map_glist]: the ids inside the frames renamed) and every visited state ([map_vstate]: both
+    visited sets renamed); [map_tres] renames the two visited sets of an [Ok] outcome and keeps
+    verdict, error and panic *)
+Theorem C17_teq_equivariant :
+  forall pi r, renumbering (N.of_nat (List.length r)) pi ->
+    forall fuel a ap b bp st,
+      teq (renumber pi r) fuel (pi a) (V.Proofs.TeqEquivariance.map_glist pi ap)
+          (pi b) (V.Proofs.TeqEquivariance.map_glist pi bp) (V.Proofs.TeqEquivariance.map_vstate pi st) =
+      V.Proofs.TeqEquivariance.map_tres pi (teq r fuel a ap b bp st).
+Proof. exact V.Proofs.TeqEquivariance.teq_renumber. Qed.
+Print Assumptions C17_teq_equivariant.
+
+(** under the hypothesis [teq_equiv_on_families r] (Model/DedupPerm.v: on the positions carrying
+    one namespaced path [types_equal] always answers, symmetrically and transitively; reflexivity
+    is unconditional) the groups of [build_groups] ARE the equivalence classes, whatever the
+    order of the entries: two members of a family are in one group iff they are judged equal ... *)
+Theorem C17_dedup_groups_are_classes :
+  forall r m, build_groups r = Ok m -> V.Model.DedupPerm.teq_equiv_on_families r ->
+    forall p gs i j,
+      In (p, gs) m -> V.Model.DedupSpec.entry_at r i p -> V.Model.DedupSpec.entry_at r j p ->
+      ((exists g, In g gs /\ In i g /\ In j g) <-> types_equal_res r i j = Ok true).
+Proof. exact V.Proofs.DedupPerm.same_group_iff_equal. Qed.
+Print Assumptions C17_dedup_groups_are_classes.
+
+(** ... a family is split (and its members renamed, [C04_minimal]) iff it has two members judged
+    different ... *)
+Theorem C17_dedup_split_iff :
+  forall r m, build_groups r = Ok m -> V.Model.DedupPerm.teq_equiv_on_families r ->
+    forall p gs, In (p, gs) m ->
+      ((2 <= List.length gs)%nat <-> V.Model.DedupPerm.fam_split r p).
+Proof. exact V.Proofs.DedupPerm.split_iff_fam_split. Qed.
+Print Assumptions C17_dedup_split_iff.
+
+(** ... and the grouping loop itself cannot fail *)
+Theorem C17_build_groups_total :
+  forall r, V.Model.DedupPerm.teq_equiv_on_families r -> exists m, build_groups r = Ok m.
+Proof. exact V.Proofs.DedupPerm.build_groups_total. Qed.
+Print Assumptions C17_build_groups_total.
+
+Theorem C17_teq_equiv_checked :
+  forall r, V.Model.DedupPerm.teq_equiv_on_familiesb r = true -> V.Model.DedupPerm.teq_equiv_on_families r.
+Proof. exact V.Proofs.DedupPerm.teq_equiv_on_familiesb_sound. Qed.
+Print Assumptions C17_teq_equiv_checked.
+
+(** C17, de-duplication half: the model-level statement of what [prop_dedup_groups_raw]
+    (Corr/CheckTG.v) evaluates on the observed outputs, with its three clauses.  The entry at
+    position [i] of [r] sits at position [pi i] of [renumber pi r] ([C17_resolve_renumber]); [r1],
+    [r2] are the registries after the pass.
+    - same outcome kind: both passes succeed, or both fail with the id-mismatch error (the only
+      error of the pass; under the hypothesis no comparison panics or runs out of fuel);
+    - renamed iff renamed: the path at [i] changes iff the path at [pi i] changes;
+    - same partition of every family: two entries with one original path share a path after the
+      pass on [r] iff their images do after the pass on [renumber pi r].  (The digit a group
+      receives follows the order of first appearance and is NOT invariant:
+      [C17_dedup_partition_example].)
+    PARTIAL: the hypothesis [teq_equiv_on_familiesb r] - [types_equal] is an equivalence relation
+    on every same-path family of namespaced entries of [r]; it carries over to [renumber pi r]
+    (first conjunct), so it is asked of ONE registry only.  F3 (unsound shortcuts make the
+    relation non-transitive) and F18 (incomplete on coincidences, order-dependent) are exactly
+    its failures, and without it the statement is false: [C17_dedup_hypothesis_needed]. *)
+Theorem C17_dedup_partition_invariant_partial :
+  forall pi r,
+    renumbering (N.of_nat (List.length r)) pi ->
+    V.Model.DedupPerm.teq_equiv_on_familiesb r = true ->
+    V.Model.DedupPerm.teq_equiv_on_families (renumber pi r) /\
+    ((exists r1 r2, ensure_unique r = Ok r1 /\ ensure_unique (renumber pi r) = Ok r2) \/
+     (exists g e g' e', ensure_unique r = Err (EIdsInvalid g e) /\
+                        ensure_unique (renumber pi r) = Err (EIdsInvalid g' e'))) /\
+    forall r1 r2, ensure_unique r = Ok r1 -> ensure_unique (renumber pi r) = Ok r2 ->
+      forall i ei ei1 ei2,
+        nth_error r (N.to_nat i) = Some ei ->
+        nth_error r1 (N.to_nat i) = Some ei1 ->
+        nth_error r2 (N.to_nat (pi i)) = Some ei2 ->
+        (t_path (snd ei1) <> t_path (snd ei) <-> t_path (snd ei2) <> t_path (snd ei)) /\
+        forall j ej ej1 ej2,
+          nth_error r (N.to_nat j) = Some ej ->
+          nth_error r1 (N.to_nat j) = Some ej1 ->
+          nth_error r2 (N.to_nat (pi j)) = Some ej2 ->
+          t_path (snd ei) = t_path (snd ej) ->
+          (t_path (snd ei1) = t_path (snd ej1) <-> t_path (snd ei2) = t_path (snd ej2)).
+Proof. exact V.Proofs.DedupPerm.dedup_partition_invariant. Qed.
+Print Assumptions C17_dedup_partition_invariant_partial.
+
+(** non-vacuity: a::Foo(u8), b::Bar(u8), a::Foo(u16), a::Foo(u8), Foo(u8), u8, u16 with positions
+    0 / 2 and 5 / 6 exchanged.  [new_paths]: the paths after the pass, by position.  The same
+    entries are renamed and the same pairs share a path; the digits are exchanged. *)
+Theorem C17_dedup_partition_example :
+  exists pi r,
+    renumbering (N.of_nat (List.length r)) pi /\ V.Model.DedupPerm.teq_equiv_on_familiesb r = true /\
+    (exists i, pi i <> i) /\
+    V.Model.DedupPerm.new_paths r =
+      Ok [["a"; "Foo1"]; ["b"; "Bar"]; ["a"; "Foo2"]; ["a"; "Foo1"]; ["Foo"]; []; []]%string /\
+    V.Model.DedupPerm.new_paths (renumber pi r) =
+      Ok [["a"; "Foo1"]; ["b"; "Bar"]; ["a"; "Foo2"]; ["a"; "Foo2"]; ["Foo"]; []; []]%string.
+Proof. exact V.Proofs.DedupPerm.dedup_partition_example. Qed.
+Print Assumptions C17_dedup_partition_example.
+
+(** the hypothesis is needed (finding F3; corpus/families/F03_split_instantiations.json
+    transcribed): a::F<T = u8> { x: u16 }, then a::F<T> { x: T } at u16 and at u8.  0 ~ 3 and 3 ~ 4
+    but not 0 ~ 4; in the given order the family is split (F1, F1, F2), with the instantiation at
+    u16 first it is one group and nothing is renamed. *)
+Theorem C17_dedup_hypothesis_needed :
+  exists pi r,
+    renumbering (N.of_nat (List.length r)) pi /\ V.Model.DedupPerm.teq_equiv_on_familiesb r = false /\
+    types_equal_res r 0 3 = Ok true /\ types_equal_res r 3 4 = Ok true /\
+    types_equal_res r 0 4 = Ok false /\
+    V.Model.DedupPerm.new_paths r = Ok [["a"; "F1"]; []; []; ["a"; "F1"]; ["a"; "F2"]]%string /\
+    V.Model.DedupPerm.new_paths (renumber pi r) = Ok [["a"; "F"]; []; []; ["a"; "F"]; ["a"; "F"]]%string.
+Proof. exact V.Proofs.DedupPerm.dedup_hypothesis_needed. Qed.
+Print Assumptions C17_dedup_hypothesis_needed.
